@@ -1,6 +1,6 @@
 #!/bin/bash
-# usage: seedconfirm.sh <Cxx> <a|b>  confirms a seeded change in its scratch worktree: suite passes with it, demo fails with it and passes without
-P=$1; V=$2; W=/tmp/mut-$P; O=/tmp/mut-$P-out/$V
+# usage: seedconfirm.sh <Cxx> <a|b|c> [worktree prefix, default mut]  confirms a seeded change in its scratch worktree: suite passes with it, demo fails with it and passes without
+P=$1; V=$2; PRE=${3:-mut}; W=/tmp/$PRE-$P; O=/tmp/$PRE-$P-out/$V
 export GOFLAGS=-mod=mod GOPROXY=off
 cd $W || exit 2
 git checkout -q -- . ; git clean -fdq
